@@ -1,8 +1,10 @@
 // C08 (sequential part): reference counting destroys each object exactly once, at the last release.
-// Engine seqmc: every history over a pool of 2 reference-counted objects (a Base and a Derived:Base,
-// both counting their destructor runs) and 3 handle slots (two IntrusivePtr<Base>, one
-// IntrusivePtr<Derived>), replayed on fresh objects inside forked ASan+UBSan shards.
-// Reference model: per object the creator's explicit references plus the handles pointing at it.
+// Engine seqmc: every history over a pool of 2 reference-counted objects (a Node:Base and a Derived:Base,
+// both counting their destructor runs and both OWNING a member handle `next`) and 3 handle slots
+// (two IntrusivePtr<Base>, one IntrusivePtr<Derived>), replayed on fresh objects inside forked
+// ASan+UBSan shards.  Reference model: per object the creator's explicit references plus the handle
+// slots plus the member handles of live objects pointing at it; an object whose count reaches 0 dies
+// and thereby releases its member (cascade).
 #include "C10_seqmc.h"
 
 #include "rkcommon/memory/IntrusivePtr.h"
@@ -21,24 +23,31 @@ struct Base : public RefCountedObject
   explicit Base(int *d) : dtor_runs(d), payload(0x5a5a) {}
   ~Base() override { ++*dtor_runs; }
 };
-struct Derived : public Base
+typedef IntrusivePtr<Base> BPtr;  // (IntrusivePtr<T> needs a complete T, so the links are handles to the base type)
+
+struct Node : public Base  // object 0: a list / scene-graph node
+{
+  BPtr next;
+  explicit Node(int *d) : Base(d) {}
+};
+struct Derived : public Base  // object 1
 {
   int *derived_dtor_runs;
   int more;
+  BPtr next;
   Derived(int *d, int *dd) : Base(d), derived_dtor_runs(dd), more(0x7b7b) {}
   ~Derived() override { ++*derived_dtor_runs; }
 };
-
-typedef IntrusivePtr<Base> BPtr;
 typedef rkcommon::memory::Ref<Derived> DPtr;  // the backward-compatible alias of RefCount.h
 
 struct PtrSys
 {
-  // object 0 is a Base, object 1 a Derived; slots 0,1 are BPtr, slot 2 is a DPtr
+  // object 0 is a Node, object 1 a Derived; slots 0,1 are BPtr, slot 2 is a DPtr
   struct Model
   {
     signed char alive[2] = {0, 0};
     signed char manual[2] = {0, 0};  // references held by the creator (1 after creation, changed by refInc/refDec)
+    signed char mem[2] = {-1, -1};   // where the live object's member handle points, -1 null
     signed char cons[3] = {0, 0, 0};
     signed char tgt[3] = {-1, -1, -1};  // -1 null
     int count(int k) const
@@ -47,13 +56,30 @@ struct PtrSys
       for (int i = 0; i < 3; i++)
         if (cons[i] && tgt[i] == k)
           c++;
+      for (int j = 0; j < 2; j++)
+        if (alive[j] && mem[j] == k)
+          c++;
       return c;
+    }
+    // somebody other than a member handle owns k: k survives whatever a member assignment releases
+    bool outside(int k) const
+    {
+      if (manual[k] > 0)
+        return true;
+      for (int i = 0; i < 3; i++)
+        if (cons[i] && tgt[i] == k)
+          return true;
+      return false;
     }
   };
   enum Kind {
     NEW, DEC, INC,
     CT_DEFAULT, CT_RAW, CT_RAWNULL, CT_COPY, CT_MOVE, CT_CONV,
-    AS_RAW, AS_NULL, AS_COPY, AS_MOVE, AS_CONV, DTOR
+    AS_RAW, AS_NULL, AS_COPY, AS_MOVE, AS_CONV, DTOR,
+    ADOPT,                              // Ref<T> h = new T; h->refDec();  (the handle becomes the only owner)
+    SETMEM, SETMEM_RAW, SETMEM_NULL,    // obj_k.next = h_j / = raw m / = null
+    AS_COPY_MEM, AS_RAW_MEM,            // h_i = h_j->next / h_i = h_j->next.ptr   (i == j: the list walk)
+    CT_COPY_MEM, CT_MOVE_MEM            // h_i(h_j->next) / h_i(std::move(h_j->next))
   };
   struct Op
   {
@@ -101,6 +127,25 @@ struct PtrSys
     for (int i = 0; i < 3; i++)
       ops.push_back(Op{CT_RAWNULL, i, 0, "h" + S(i) + "(rawnull)", "construct from null raw pointer"});
     ops.push_back(Op{AS_COPY, 2, 2, "h2=h2", "copy-assign to itself"});
+    // objects that own a handle
+    for (int i = 0; i < 2; i++)
+      for (int k = 0; k < 2; k++)
+        ops.push_back(Op{ADOPT, i, k, "h" + S(i) + "(new" + S(k) + ")", "create object owned by a new handle only"});
+    for (int k = 0; k < 2; k++)
+      for (int j = 0; j < 2; j++)
+        ops.push_back(Op{SETMEM, k, j, "m" + S(k) + "=h" + S(j), "copy-assign to member handle"});
+    for (int k = 0; k < 2; k++)
+      ops.push_back(Op{SETMEM_NULL, k, 0, "m" + S(k) + "=null", "assign null to member handle"});
+    for (int i = 0; i < 2; i++)
+      for (int j = 0; j < 2; j++)
+        ops.push_back(Op{AS_COPY_MEM, i, j, "h" + S(i) + "=h" + S(j) + "->m", i == j ? "copy-assign from member handle of own pointee" : "copy-assign from member handle of another pointee"});
+    for (int i = 0; i < 2; i++)
+      for (int j = 0; j < 2; j++)
+        ops.push_back(Op{AS_RAW_MEM, i, j, "h" + S(i) + "=h" + S(j) + "->m.ptr", i == j ? "assign raw pointer read from member of own pointee" : "assign raw pointer read from member of another pointee"});
+    for (int i = 0; i < 2; i++)
+      ops.push_back(Op{CT_COPY_MEM, i, 1 - i, "h" + S(i) + "(h" + S(1 - i) + "->m)", "copy-construct from member handle"});
+    for (int i = 0; i < 2; i++)
+      ops.push_back(Op{CT_MOVE_MEM, i, 1 - i, "h" + S(i) + "(mv-h" + S(1 - i) + "->m)", "move-construct from member handle"});
   }
   const char *sysname() const { return "IntrusivePtr"; }
   const char *tag() const { return "ptr"; }
@@ -109,9 +154,17 @@ struct PtrSys
   const std::string &opname(int op) const { return ops[op].name; }
   const std::string &opclass(int op) const { return ops[op].cls; }
 
+  static bool constructs_slot(Kind k)
+  {
+    return k == CT_DEFAULT || k == CT_RAW || k == CT_RAWNULL || k == CT_COPY || k == CT_MOVE || k == CT_CONV || k == ADOPT || k == CT_COPY_MEM || k == CT_MOVE_MEM;
+  }
   bool enabled(const Model &m, int op) const
   {
     const Op &o = ops[op];
+    // Symmetry: h0 and h1 are two names for the same kind of slot, and an unconstructed slot carries no state.
+    // While both are unconstructed only h0 may be constructed (every other history is a renaming of an enumerated one).
+    if (constructs_slot(o.kind) && o.a == 1 && !m.cons[0])
+      return false;
     switch (o.kind) {
     case NEW:
       return !m.alive[o.a];
@@ -137,8 +190,39 @@ struct PtrSys
     case AS_MOVE:
     case AS_CONV:
       return m.cons[o.a] && m.cons[o.b];
+    case ADOPT:
+      return !m.cons[o.a] && !m.alive[o.b];
+    // A member handle is only assigned while somebody outside owns its object: otherwise the assignment could
+    // release the very object the handle lives in (destination inside the released object: outside the statement).
+    case SETMEM:
+      return m.alive[o.a] && m.outside(o.a) && m.cons[o.b];
+    case SETMEM_RAW:
+      return m.alive[o.a] && m.outside(o.a) && m.alive[o.b];
+    case SETMEM_NULL:
+      return m.alive[o.a] && m.outside(o.a) && m.mem[o.a] >= 0;
+    case AS_COPY_MEM:
+    case AS_RAW_MEM:
+      return m.cons[o.a] && m.cons[o.b] && m.tgt[o.b] >= 0;
+    case CT_COPY_MEM:
+    case CT_MOVE_MEM:
+      return !m.cons[o.a] && m.cons[o.b] && m.tgt[o.b] >= 0;
     }
     return false;
+  }
+  // objects whose count reached 0 die; a dying object releases its member, which may kill the next one
+  static void settle(Model &m, bool died[2])
+  {
+    for (bool again = true; again;) {
+      again = false;
+      for (int k = 0; k < 2; k++)
+        if (m.alive[k] && m.count(k) == 0) {
+          m.alive[k] = 0;
+          m.mem[k] = -1;
+          m.manual[k] = 0;
+          died[k] = true;
+          again = true;
+        }
+    }
   }
   // reference model.  died[k] is set when object k loses its last reference in this step.
   void apply(Model &m, int op, bool died[2]) const
@@ -148,6 +232,7 @@ struct PtrSys
     case NEW:
       m.alive[o.a] = 1;
       m.manual[o.a] = 1;
+      m.mem[o.a] = -1;
       break;
     case DEC:
       m.manual[o.a]--;
@@ -198,14 +283,38 @@ struct PtrSys
       m.cons[o.a] = 0;
       m.tgt[o.a] = -1;
       break;
+    case ADOPT:
+      m.alive[o.b] = 1;
+      m.manual[o.b] = 0;
+      m.mem[o.b] = -1;
+      m.cons[o.a] = 1;
+      m.tgt[o.a] = (signed char)o.b;
+      break;
+    case SETMEM:
+      m.mem[o.a] = m.tgt[o.b];
+      break;
+    case SETMEM_RAW:
+      m.mem[o.a] = (signed char)o.b;
+      break;
+    case SETMEM_NULL:
+      m.mem[o.a] = -1;
+      break;
+    case AS_COPY_MEM:
+    case AS_RAW_MEM:
+      m.tgt[o.a] = m.mem[m.tgt[o.b]];  // read before anything is released
+      break;
+    case CT_COPY_MEM:
+      m.cons[o.a] = 1;
+      m.tgt[o.a] = m.mem[m.tgt[o.b]];
+      break;
+    case CT_MOVE_MEM:
+      m.cons[o.a] = 1;
+      m.tgt[o.a] = m.mem[m.tgt[o.b]];
+      m.mem[m.tgt[o.b]] = -1;
+      break;
     }
-    for (int k = 0; k < 2; k++) {
-      died[k] = false;
-      if (m.alive[k] && m.count(k) == 0) {
-        m.alive[k] = 0;
-        died[k] = true;
-      }
-    }
+    died[0] = died[1] = false;
+    settle(m, died);
   }
   void advance(Model &m, int op) const
   {
@@ -216,7 +325,7 @@ struct PtrSys
   {
     std::string s;
     for (int k = 0; k < 2; k++)
-      s += "obj" + S(k) + (m.alive[k] ? "(creator " + S(m.manual[k]) + ", count " + S(m.count(k)) + ") " : "(-) ");
+      s += "obj" + S(k) + (m.alive[k] ? "(creator " + S(m.manual[k]) + ", count " + S(m.count(k)) + (m.mem[k] >= 0 ? ", next->obj" + S(m.mem[k]) : "") + ") " : "(-) ");
     for (int i = 0; i < 3; i++)
       s += "h" + S(i) + (m.cons[i] ? (m.tgt[i] < 0 ? "=null" : "->obj" + S(m.tgt[i])) : "(-)") + (i < 2 ? " " : "");
     return s;
@@ -229,6 +338,7 @@ struct PtrSys
     Model model;
     Base *raw[2] = {nullptr, nullptr};  // valid while the model says the object is alive
     Derived *rawd = nullptr;
+    BPtr *member[2] = {nullptr, nullptr};  // &raw[k]->next, valid while the model says the object is alive
     int base_dtor[2] = {0, 0}, derived_dtor = 0;
     BPtr *hb[2] = {nullptr, nullptr};
     DPtr *hd = nullptr;
@@ -236,17 +346,26 @@ struct PtrSys
 
     Base *want_ptr(int i) const { return model.tgt[i] < 0 ? nullptr : raw[model.tgt[i]]; }
 
-    void exec(const Op &o)
+    void create(int k)
+    {
+      base_dtor[k] = 0;
+      if (k == 0) {
+        Node *n = new Node(&base_dtor[0]);
+        raw[0] = n;
+        member[0] = &n->next;
+      } else {
+        derived_dtor = 0;
+        rawd = new Derived(&base_dtor[1], &derived_dtor);
+        raw[1] = rawd;
+        member[1] = &rawd->next;
+      }
+    }
+
+    void exec(const Op &o, const Model &before)
     {
       switch (o.kind) {
       case NEW:
-        base_dtor[o.a] = 0;
-        if (o.a == 0)
-          raw[0] = new Base(&base_dtor[0]);
-        else {
-          derived_dtor = 0;
-          raw[1] = rawd = new Derived(&base_dtor[1], &derived_dtor);
-        }
+        create(o.a);
         break;
       case DEC:
         raw[o.a]->refDec();
@@ -318,6 +437,34 @@ struct PtrSys
           hd = nullptr;
         }
         break;
+      case ADOPT:
+        create(o.b);
+        hb[o.a] = new BPtr(raw[o.b]);
+        raw[o.b]->refDec();
+        break;
+      case SETMEM:
+        *member[o.a] = *hb[o.b];
+        break;
+      case SETMEM_RAW:
+        *member[o.a] = raw[o.b];
+        break;
+      case SETMEM_NULL:
+        *member[o.a] = nullptr;
+        break;
+      case AS_COPY_MEM: {  // h_i = h_j->next
+        const BPtr &src = *member[before.tgt[o.b]];
+        *hb[o.a] = src;
+        break;
+      }
+      case AS_RAW_MEM:  // h_i = h_j->next.ptr
+        *hb[o.a] = member[before.tgt[o.b]]->ptr;
+        break;
+      case CT_COPY_MEM:
+        hb[o.a] = new BPtr(*member[before.tgt[o.b]]);
+        break;
+      case CT_MOVE_MEM:
+        hb[o.a] = new BPtr(std::move(*member[before.tgt[o.b]]));
+        break;
       }
     }
 
@@ -326,33 +473,38 @@ struct PtrSys
       Model before = model;
       bool died[2];
       sys.apply(model, op, died);
-      exec(o);
-      if ((o.kind == AS_MOVE || o.kind == CT_MOVE) && before.tgt[o.b] >= 0) {
-        // The statement does not say that a moved-from handle becomes null (the enumeration follows "null", which is
-        // what the tree does).  A source that still points at its object is consistent as long as the count says
-        // so: then the move behaved like a copy (onto itself: like nothing), and the history is cut here.
-        Base *p = hb[o.b]->ptr;
-        if (p != nullptr) {
-          if (p != raw[before.tgt[o.b]]) {
+      exec(o, before);
+      // The statement does not say that a moved-from handle becomes null (the enumeration follows "null", which is
+      // what the tree does).  A source that still points at its object is consistent as long as the count says
+      // so: then the move behaved like a copy (onto itself: like nothing), and the history is cut here.
+      {
+        BPtr *src = nullptr;
+        int srctgt = -1;
+        if (o.kind == AS_MOVE || o.kind == CT_MOVE) {
+          src = hb[o.b];
+          srctgt = before.tgt[o.b];
+        } else if (o.kind == CT_MOVE_MEM) {
+          src = member[before.tgt[o.b]];
+          srctgt = before.mem[before.tgt[o.b]];
+        }
+        if (src && srctgt >= 0 && src->ptr != nullptr) {
+          if (src->ptr != raw[srctgt]) {
             ctx.viol(o.cls + "|handle points at something it was never given", "after the move the source handle is neither null nor its old object");
             return;
           }
           model = before;
-          if (o.kind == CT_MOVE)
+          if (o.kind != AS_MOVE)
             model.cons[o.a] = 1;
-          model.tgt[o.a] = model.tgt[o.b];
-          for (int k = 0; k < 2; k++) {
-            died[k] = model.alive[k] && model.count(k) == 0;
-            if (died[k])
-              model.alive[k] = 0;
-          }
+          model.tgt[o.a] = (signed char)srctgt;
+          died[0] = died[1] = false;
+          settle(model, died);
           ctx.diverged = true;
         }
       }
       // 1. destruction: exactly once, exactly at the step that released the last reference
       for (int k = 0; k < 2; k++) {
         int runs = base_dtor[k];
-        bool was_alive = before.alive[k] || (o.kind == NEW && o.a == k);
+        bool was_alive = before.alive[k] || (o.kind == NEW && o.a == k) || (o.kind == ADOPT && o.b == k);
         if (!was_alive)
           continue;
         auto cnt = [&]() {
@@ -398,6 +550,14 @@ struct PtrSys
           return;
         }
       }
+      for (int k = 0; k < 2; k++)
+        if (model.alive[k]) {
+          Base *w = model.mem[k] < 0 ? nullptr : raw[model.mem[k]];
+          if (member[k]->ptr != w) {
+            ctx.viol(o.cls + "|handle does not point at the object it was given", "member handle of object " + S(k) + " disagrees with " + (w ? "object " + S(model.mem[k]) : std::string("null")));
+            return;
+          }
+        }
       // 4. comparisons agree with pointer identity
       if (fresh) {
         for (int i = 0; i < 2; i++)
@@ -421,13 +581,13 @@ struct PtrSys
         }
         uint64_t h = sq::mix(vr::fnv("ptr"), (uint64_t)op);
         for (int k = 0; k < 2; k++)
-          h = sq::mix(h, model.alive[k] * 64 + model.manual[k] * 8 + (died[k] ? 1 : 0));
+          h = sq::mix(h, model.alive[k] * 256 + model.manual[k] * 32 + (model.mem[k] + 1) * 4 + (died[k] ? 1 : 0));
         for (int i = 0; i < 3; i++)
           h = sq::mix(h, model.cons[i] * 8 + (model.tgt[i] + 1));
         sq::outcomes().add(h);
       }
       if (ctx.verbose)
-        printf("  %-14s %-38s -> %s%s%s\n", o.name.c_str(), o.cls.c_str(), show(model).c_str(), died[0] ? "  [obj0 destroyed here]" : "", died[1] ? "  [obj1 destroyed here]" : "");
+        printf("  %-16s %-50s -> %s%s%s\n", o.name.c_str(), o.cls.c_str(), show(model).c_str(), died[0] ? "  [obj0 destroyed here]" : "", died[1] ? "  [obj1 destroyed here]" : "");
     }
     void step(int op, bool fresh) { step_op(sys.ops[op], op, fresh); }
 
@@ -438,10 +598,17 @@ struct PtrSys
           return i;
       return -1;
     }
-    // teardown = more checked steps: destroy the remaining handles, release the creator's references;
-    // every object must be destroyed exactly at its last release
+    // teardown = more checked steps.  The creator first takes a reference to every live object it holds none of
+    // (so that cycles of member handles can be opened from outside), clears the member handles, destroys the
+    // remaining handle slots and releases its references: every object must be destroyed exactly at its last release.
     void finish()
     {
+      for (int k = 0; k < 2 && !ctx.failed; k++)
+        if (model.alive[k] && model.manual[k] == 0)
+          step(find_op(INC, k), false);
+      for (int k = 0; k < 2 && !ctx.failed; k++)
+        if (model.alive[k] && model.mem[k] >= 0)
+          step(find_op(SETMEM_NULL, k), false);
       for (int i = 0; i < 3 && !ctx.failed; i++)
         if (model.cons[i])
           step(find_op(DTOR, i), false);
